@@ -67,6 +67,7 @@ Eval(e, S) ==
          ELSE LET r == Eval(e.r, l.S) IN IF ~IsNorm(r) THEN r ELSE R3(r.S, "?", Norm)
     [] e.e = "tupd" -> LET r == EvalSeq(e.elts, 1, S) IN R3(r.S, "?", r.comp)
     [] e.e = "useq" -> IF Expect(S, "useq", Str(e.k)) THEN R3(Adv(S), "?", Norm) ELSE R3(S, "", Drift("useq"))
+    [] e.e = "callinner" -> Eval([e |-> "site", k |-> e.k], S)      \* the nested function runs: its own bindings are its own business
     [] e.e = "headof" -> IF Expect(S, "head", "") THEN R3(Adv(S), "?", Norm) ELSE R3(S, "", Drift("head"))
     [] e.e = "obj" -> IF Expect(S, "obj", Str(e.k)) THEN R3(Adv(S), "obj:" \o Str(e.k), Norm) ELSE R3(S, "", Drift("obj"))
     [] e.e = "acc" -> IF Expect(S, "acc", Str(e.k)) THEN R3(Adv(S), "acc:" \o Str(e.k), Norm) ELSE R3(S, "", Drift("acc"))
